@@ -645,6 +645,13 @@ func init() {
 		s.W["del"] += 1
 		s.W["merge"] += 3
 		s.W["restart"] += 3
+		// fault arm: an I/O error inside the merge side directory, or too little free space
+		switch x := rng.Intn(20); {
+		case x < 3:
+			c.FaultAt = rng.Range(1, 14)
+		case x == 3:
+			c.Free = int64(rng.Range(1, 400))
+		}
 		inner := s.genPlain(rng, restartCfgFn(c, rng, true, 0.5))
 		lastMerge := false
 		return func(r *Runner, i int) *Op {
